@@ -193,3 +193,38 @@ func VH_C17_network_name() {
 		vrt.Assert(c == chars[k], "unpacking the GSM 7-bit text returns the name")
 	}
 }
+
+// An encoded name belongs to the caller: editing it in place must not change what encoding the same name returns later,
+// and encoding another name must not change an element the caller still holds.
+func VH_C17_network_name_held() {
+	L := vrt.Choose("L", 0, 9)
+	chars := make([]byte, L)
+	for i := range chars {
+		chars[i] = vrt.U8(fmt.Sprintf("c%d", i)) & 0x7f
+	}
+	L2 := vrt.Choose("L2", 0, 9)
+	other := make([]byte, L2)
+	for i := range other {
+		other[i] = vrt.U8(fmt.Sprintf("d%d", i)) & 0x7f
+	}
+	full := vrt.Bool("full")
+	enc := func(s string) []uint8 {
+		if full {
+			n := FullNetworkNameToNas(s)
+			return n.Buffer
+		}
+		n := ShortNetworkNameToNas(s)
+		return n.Buffer
+	}
+	b1 := enc(string(chars))
+	keep := append([]uint8{}, b1...)
+	b2 := enc(string(other))
+	keep2 := append([]uint8{}, b2...)
+	vrt.Equal(b1, keep, "an encoded name the caller holds is not changed by encoding another name")
+	for i := range b1 {
+		b1[i] = ^b1[i] // the caller edits its element in place
+	}
+	vrt.Equal(b2, keep2, "two encoded names share no memory")
+	b3 := enc(string(chars))
+	vrt.Equal(b3, keep, "encoding the same name again gives the same octets, whatever happened to the earlier element")
+}
